@@ -157,6 +157,7 @@ def main(argv=None):
     known = [k for k in load_known_findings() if k.get("property") == pid and k.get("kind", "finding") == "finding"]
     printed_known = []
     lines = []
+    suppressed = []
     remaining = list(failing)
     for kf in known:
         pat = re.compile(kf["obligation"])
@@ -170,6 +171,7 @@ def main(argv=None):
             lines.append(f"KNOWN-FINDING: property={pid} {kf['what']}")
             printed_known.append(kf["what"])
             remaining = [ob for ob in remaining if ob not in matched]
+            suppressed += matched
             bounded_violations = [v for v in bounded_violations if v not in bmatched]
         # rc == 0: the witness no longer fails -> the obligations stay in `remaining` as violations
 
@@ -236,8 +238,12 @@ def main(argv=None):
         "seed": seed,
         "level": "proof",
         "coverage": {
-            "obligations": len(real),
+            # obligations that a recorded known finding names (and whose witness still fails natively)
+            # are not part of the proof claim; they are counted separately below
+            "obligations": len(real) - len(suppressed),
             "discharged": sum(1 for ob in real if ob.status == "discharged"),
+            "obligations_excluded_by_known_findings": sorted({ob.name for ob in suppressed}),
+            "obligation_instances_excluded_by_known_findings": len(suppressed),
             "checker_cmd": f"./check {pid} --tier {tier}  (python3-vt: pyvc AST->VC generator + z3 {z3.get_version_string()} / cvc5 / z3 4.8)",
             "trusted_base": ["pyvc symbolic executor and builtin models (/verif/pyvc)", "z3 5.1.0", "cvc5 1.0.3", "z3 4.8.12",
                              "CPython semantics as encoded (DESIGN 2.3)"],
